@@ -911,3 +911,4 @@ EXPLANATION += (' Round 6: ' + 'PITFALL/narrowing-cast over every method of ever
 EXPLANATION += (' Round 7: ' + 'INV/melody-scenarios (three ranges x five events, encode and decode folded); CHORD/quality-needs-all-degrees.')
 EXPLANATION += (' Rounds 9-10: ' + 'EVENT/validator-admits (the PerformanceEvent validator evaluated on twelve decodable events); CHORD/label-below-num-classes (interval of every returned label against num_classes).')
 EXPLANATION += (' Round 11: ' + 'CHORD/regex-group-into-table shared from C15; PITCHCLASS/reduced locates a one-sided wrap.')
+EXPLANATION += (' Round 12: ' + 'DRUMS/default-table-only-as-fallback; CHORD/wrap-both-ways shared from C15.')
